@@ -395,9 +395,9 @@ def class_route_stream(ctx, classes, prop_key, make_cfg=None, n_per_class=None):
     import vlib
     rng = ctx.rng
     for ci, cls in enumerate(classes):
-        for cplx in (False, True, False, False) if cls == 'pburg' else (False, True):      # pburg: three real records with an order-selection criterion
+        for cplx in ((False, True) + (False,) * 8) if cls == 'pburg' else (False, True):      # pburg: nine real records with an order-selection criterion
             N = int(rng.integers(20, 41))
-            x, kind = gen_data(rng, N, cplx, ['noise', 'tone', 'ar'][int(rng.integers(0, 3))])
+            x, kind = gen_data(rng, N, cplx, ['noise', 'tone', 'ar'][int(rng.integers(0, 3))] if not (cls == 'pburg' and not cplx) else 'ar')
             if rng.integers(0, 2):
                 x = x + (1.5 + (0.75j if cplx else 0))          # a record with a mean (mean removal must not leak between computations)
             cfg = (make_cfg or default_cfg)(cls, N, rng, cplx)
